@@ -30,7 +30,10 @@ def literal_node(v):
     return None
 
 
-def observe(lib, cases, literal=True, checks=('value',), extra_env=None):
+RANGES = [('A1', 'C3'), ('E1', 'G3'), ('I1', 'K3')]
+
+
+def observe(lib, cases, literal=True, checks=('value',), extra_env=None, ranges=False):
     obs = []
     h = None
     for n, c in enumerate(cases):
@@ -49,6 +52,22 @@ def observe(lib, cases, literal=True, checks=('value',), extra_env=None):
             if lits and all(x is not None for x in lits) and lits[-1]['k'] != 'omit' and not consecutive \
                     and lits[0]['k'] != 'omit':
                 forms.append((F.call(f, *lits), dict(F.empty_env(), **(extra_env or {}))))
+        if ranges and any(a['t'] == 'arr' for a in args):
+            # arrays supplied by the host through the range listener
+            e2 = F.empty_env()
+            if extra_env:
+                e2.update(extra_env)
+            nodes, k = [], 0
+            for i, a in enumerate(args):
+                if a['t'] == 'arr' and k < len(RANGES):
+                    lo, hi = RANGES[k]
+                    k += 1
+                    e2['rangesets'].append({'key': F.cps(lo + ':' + hi), 'vals': [a]})
+                    nodes.append(F.rng(lo, hi))
+                else:
+                    e2['vars'][NAMES[i]] = a
+                    nodes.append(F.var(NAMES[i]))
+            forms.append((F.call(f, *nodes), e2))
         for a, e in forms:
             h = F.Harnessed(lib, e)
             text = F.render(a)
